@@ -158,7 +158,7 @@ def minimise(mod, hist, key, budget=400):
             return None
         execs[0] += 1
         try:
-            r = mod.replay(h)
+            r = call(lambda: mod.replay(h))
         except HarnessError:
             return None
         for v in r["violations"]:
@@ -226,6 +226,118 @@ def minimise(mod, hist, key, budget=400):
 
 
 # ----------------------------------------------------------------------------------------------
+# process isolation: one simulated run = one forked child
+# ----------------------------------------------------------------------------------------------
+
+def in_child(fn, timeout_s=300):
+    """Run fn() in a forked child and return its (picklable) result.  Every simulated run starts
+    from the same process image, so that state a change under test keeps at module or class level
+    (a cache shared by all Document objects, say) cannot leak from one run into the next: a run stays
+    a pure function of (run seed, code), and a violation found in a batch replays in a fresh
+    interpreter.  Raises HarnessError when the child dies or fn raises."""
+    import pickle
+    global _FROZEN
+    if not _FROZEN:
+        # everything allocated so far (numpy, scipy, xml, the library) becomes invisible to the cyclic
+        # GC: children then never touch those pages, which keeps fork + copy-on-write cheap
+        import gc
+        gc.collect()
+        gc.freeze()
+        _FROZEN = True
+    r, w = os.pipe()
+    pid = os.fork()
+    if pid == 0:
+        code = 0
+        try:
+            os.close(r)
+            faulthandler.dump_traceback_later(timeout_s, exit=True)
+            try:
+                data = pickle.dumps(("ok", fn()), protocol=pickle.HIGHEST_PROTOCOL)
+            except BaseException as e:      # noqa: BLE001 - reported to the parent, never swallowed
+                data = pickle.dumps(("err", "%r\n%s" % (e, traceback.format_exc())))
+            with os.fdopen(w, "wb", closefd=True) as f:
+                f.write(data)
+        except BaseException:
+            code = 3
+        finally:
+            os._exit(code)
+    os.close(w)
+    chunks = []
+    with os.fdopen(r, "rb", closefd=True) as f:
+        while True:
+            b = f.read(1 << 16)
+            if not b:
+                break
+            chunks.append(b)
+    _, status = os.waitpid(pid, 0)
+    data = b"".join(chunks)
+    if not data:
+        raise HarnessError("isolated run died without a result (wait status %d; hang watchdog or crash)" % status)
+    kind, val = pickle.loads(data)
+    if kind != "ok":
+        raise HarnessError("isolated run raised: %s" % val)
+    return val
+
+
+_FROZEN = False
+ISOLATE = os.environ.get("VERIF_NO_ISOLATION") != "1"
+
+
+def call(fn, timeout_s=300):
+    return in_child(fn, timeout_s) if ISOLATE else fn()
+
+
+# ----------------------------------------------------------------------------------------------
+# violations that need the process state left behind by earlier runs (a change under test that keeps
+# state at module/class level): reproduce and minimise the *sequence* of runs
+# ----------------------------------------------------------------------------------------------
+
+def run_sequence(mod, hists):
+    """Execute the histories one after the other in ONE fresh process; result of the last one."""
+    def body():
+        r = None
+        for h in hists:
+            r = mod.replay(h)
+        return r
+    return call(body, 600)
+
+
+def has_key(res, key):
+    return res is not None and any(v["key"] == key for v in res["violations"])
+
+
+def reproduce(mod, prop, tier, summary, key):
+    """Returns ('single', history) when the run's own history shows the violation in a fresh process,
+    ('sequence', [histories]) when it only shows after preceding runs of its chunk; raises HarnessError
+    when it cannot be reproduced at all."""
+    hist = summary["history"]
+    try:
+        if has_key(call(lambda: mod.replay(hist)), key):
+            return "single", hist
+    except HarnessError:
+        pass
+    ch = summary.get("chunk")
+    if not ch:
+        raise HarnessError("violation did not reproduce in a fresh process (key=%r)" % (key,))
+    runs = call(lambda: chunk_body(prop, tier, ch["seeds"], keep_all=True), 900)
+    hs = [x["history"] for x in runs[:ch["pos"] + 1]]
+    if not has_key(run_sequence(mod, hs), key):
+        raise HarnessError("violation did not reproduce, neither alone nor after the preceding runs of its "
+                           "chunk (key=%r, run_seed=%s)" % (key, summary.get("seed")))
+    # drop earlier runs while the last one still fails
+    i = 0
+    while i < len(hs) - 1 and len(hs) > 1:
+        cand = hs[:i] + hs[i + 1:]
+        if has_key(run_sequence(mod, cand), key):
+            hs = cand
+        else:
+            i += 1
+    if len(hs) == 1:
+        return "single", hs[0]
+    return "sequence", hs
+
+
+# ----------------------------------------------------------------------------------------------
 # workers
 # ----------------------------------------------------------------------------------------------
 
@@ -257,46 +369,46 @@ def _summarise(prop, run_seed, hist, res, keep_hist):
     return s
 
 
-def _work_chunk(prop, tier, seeds, sample_every, per_run_timeout):
+def chunk_body(prop, tier, seeds, keep_all=False):
+    """Execute the runs of one chunk, in order, in the current process; returns their summaries
+    (seeded runs and the runs derived from them, e.g. fault sweeps) in execution order."""
     mod = get_mod(prop)
     out = []
     for k, rs in enumerate(seeds):
-        faulthandler.dump_traceback_later(per_run_timeout, exit=True)
-        try:
-            hist, res = mod.generate_and_run(rs, tier)
-        except BaseException as e:  # harness failure inside a run: report, never a violation
-            faulthandler.cancel_dump_traceback_later()
-            return {"harness_error": "run_seed=%d: %s\n%s" % (rs, repr(e), traceback.format_exc())}
-        faulthandler.cancel_dump_traceback_later()
-        out.append(_summarise(prop, rs, hist, res, keep_hist=(k == 0 and sample_every)))
+        hist, res = mod.generate_and_run(rs, tier)
+        out.append(_summarise(prop, rs, hist, res, keep_hist=(keep_all or k == 0)))
         if hasattr(mod, "derived"):
-            faulthandler.dump_traceback_later(per_run_timeout * 4, exit=True)
-            try:
-                extra = mod.derived(rs, tier, hist)
-            except BaseException as e:
-                faulthandler.cancel_dump_traceback_later()
-                return {"harness_error": "derived runs of run_seed=%d: %s\n%s" % (rs, repr(e), traceback.format_exc())}
-            faulthandler.cancel_dump_traceback_later()
-            for h2, r2 in extra:
-                s2 = _summarise(prop, rs, h2, r2, keep_hist=False)
+            for h2, r2 in mod.derived(rs, tier, hist):
+                s2 = _summarise(prop, rs, h2, r2, keep_hist=keep_all)
                 s2["derived"] = True
                 out.append(s2)
-    return {"runs": out}
+    return out
+
+
+def _work_chunk(prop, tier, seeds, sample_every, per_run_timeout):
+    """One chunk = one forked child (see in_child): runs inside a chunk share a process, chunks do
+    not, and a chunk is a pure function of (its seeds, code)."""
+    try:
+        runs = call(lambda: chunk_body(prop, tier, seeds), per_run_timeout * max(1, len(seeds)))
+    except BaseException as e:  # harness failure inside a run: report, never a violation
+        return {"harness_error": "chunk starting at run_seed=%d: %s\n%s" % (seeds[0], repr(e), traceback.format_exc())}
+    for i, s in enumerate(runs):
+        if s["violations"]:
+            s["chunk"] = {"seeds": list(seeds), "pos": i}
+    return {"runs": runs}
+
+
+def _explicit_body(prop, hists):
+    mod = get_mod(prop)
+    return [_summarise(prop, h.get("seed", -1), h, mod.replay(h), keep_hist=False) for h in hists]
 
 
 def _work_explicit(prop, hists, per_run_timeout):
-    mod = get_mod(prop)
-    out = []
-    for h in hists:
-        faulthandler.dump_traceback_later(per_run_timeout, exit=True)
-        try:
-            res = mod.replay(h)
-        except BaseException as e:
-            faulthandler.cancel_dump_traceback_later()
-            return {"harness_error": "explicit history: %s\n%s" % (repr(e), traceback.format_exc())}
-        faulthandler.cancel_dump_traceback_later()
-        out.append(_summarise(prop, h.get("seed", -1), h, res, keep_hist=False))
-    return {"runs": out}
+    try:
+        runs = call(lambda: _explicit_body(prop, hists), per_run_timeout * max(1, len(hists)))
+    except BaseException as e:
+        return {"harness_error": "explicit histories: %s\n%s" % (repr(e), traceback.format_exc())}
+    return {"runs": runs}
 
 
 # ----------------------------------------------------------------------------------------------
@@ -429,7 +541,7 @@ def run_batch(prop, tier, batch_seed, nruns, workers, soft_deadline_s, chunk=25,
 # replay files
 # ----------------------------------------------------------------------------------------------
 
-def write_replay(prop, hist, res, key, signature, what):
+def write_replay(prop, hist, res, key, signature, what, sequence=None):
     d = os.path.join(VERIF_DIR, "replays")
     os.makedirs(d, exist_ok=True)
     sig_h = hashlib.sha256(signature.encode()).hexdigest()[:10]
@@ -444,6 +556,10 @@ def write_replay(prop, hist, res, key, signature, what):
         "history": hist,
         "violations": res["violations"][:5],
     }
+    if sequence is not None:
+        body["sequence"] = sequence
+        body["note"] = ("the violation shows in the LAST history only after the earlier ones ran in the same "
+                        "process: the code under test keeps state outside its objects")
     with open(path, "w") as f:
         json.dump(body, f, indent=1)   # key order is part of a history (attribute dictionaries)
     return path
